@@ -37,8 +37,8 @@ pub fn dedup_batches(batches: Vec<RecordBatch>) -> Result<Vec<RecordBatch>> {
         let metric_col = batch.column_by_name("metric_name");
 
         // If the batch doesn't have both columns, we can't dedup — pass through
-        let (ts_col, metric_col) = match (ts_col, metric_col) {
-            (Some(t), Some(m)) => (t, m),
+        let ts_col = match (ts_col, metric_col) {
+            (Some(t), Some(_)) => t,
             _ => {
                 result.push(batch.clone());
                 continue;
@@ -73,11 +73,6 @@ pub fn dedup_batches(batches: Vec<RecordBatch>) -> Result<Vec<RecordBatch>> {
             result.push(batch.clone());
             continue;
         };
-
-        if metric_col.as_string_opt::<i32>().is_none() {
-            result.push(batch.clone());
-            continue;
-        }
 
         // Encode all columns into comparable row keys
         let schema = batch.schema();
